@@ -8,10 +8,12 @@ IMPORTS = ("From Coq Require Import List Ascii String NArith Bool.\n"
            "From Galaxy.Base Require Import Strs.\nFrom Galaxy.Model Require Import Nets Netfilter Policy PolicySpec.\n"
            "From Galaxy.Corr Require Import CorrBase C15c.\n")
 
-THEOREMS = ["policy_batch_no_dangling", "pod_batch_no_dangling", "sync_sets_exact", "sync_exact_partial_fresh"]
+THEOREMS = ["policy_batch_no_dangling", "pod_batch_no_dangling", "sync_sets_exact", "sync_exact_partial_fresh",
+            "policy_chains_exact"]
 REFUTED = ["sync_exact_refuted_stale_referenced", "sync_exact_refuted_stale_pod_chain", "sync_exact_refuted_nomatch_flip",
            "sync_idem_refuted_nomatch_flip", "sync_idem_refuted_conflicting_flags"]
-DEPS = ["Strs", "Nets", "Netfilter", "Policy", "PolicySpec", "PolicyP", "CorrBase", "C15c", "C15"]
+DEPS = ["Strs", "Nets", "Netfilter", "Policy", "PolicySpec", "NetfilterP", "PolicySetsP", "PolicyPodsP", "PolicyP", "CorrBase",
+        "C15c", "C15"]
 
 KNOWN_FINDINGS = [
     {"id": "K5", "status": "open", "tag": "c15-stale-policy-chain-referenced",
